@@ -5,6 +5,7 @@ import (
 	"reflect"
 	"time"
 	"unsafe"
+	"verifharness/gen"
 
 	"github.com/philpearl/avro"
 )
@@ -91,6 +92,53 @@ func scribbleSpareCapacity(v reflect.Value, depth int) (n int) {
 					}
 				}
 				n += len(spare)
+			}
+		}
+	}
+	return n
+}
+
+// markEmptyMaps inserts one entry (key chosen by the caller, zero value) into every empty, non-nil map of v,
+// and the same entry into the corresponding map of want: the holder of a decoded record adds to its own maps.
+// Returns the number of maps marked. t drives the walk.
+func markEmptyMaps(t *gen.T, v, want reflect.Value, key string, depth int) (n int) {
+	if depth > 10 || !v.IsValid() || !want.IsValid() {
+		return 0
+	}
+	switch t.K {
+	case gen.KPtr:
+		if !v.IsNil() && !want.IsNil() {
+			n += markEmptyMaps(t.Elem, v.Elem(), want.Elem(), key, depth+1)
+		}
+	case gen.KStruct:
+		for i, f := range t.Fields {
+			if !f.Excluded() {
+				n += markEmptyMaps(f.T, gen.Field(v, i), gen.Field(want, i), key, depth+1)
+			}
+		}
+	case gen.KSlice:
+		if t.Elem.K != gen.KUint8 {
+			for i := 0; i < v.Len() && i < want.Len() && i < 50; i++ {
+				n += markEmptyMaps(t.Elem, v.Index(i), want.Index(i), key, depth+1)
+			}
+		}
+	case gen.KMap:
+		if v.IsNil() {
+			return 0
+		}
+		if v.Len() == 0 && want.Len() == 0 && want.CanSet() {
+			if want.IsNil() {
+				want.Set(reflect.MakeMap(want.Type()))
+			}
+			z := reflect.Zero(v.Type().Elem())
+			v.SetMapIndex(reflect.ValueOf(key), z)
+			want.SetMapIndex(reflect.ValueOf(key), z)
+			return 1
+		}
+		it := v.MapRange()
+		for it.Next() {
+			if wv := want.MapIndex(it.Key()); wv.IsValid() {
+				n += markEmptyMaps(t.Elem, it.Value(), wv, key, depth+1)
 			}
 		}
 	}
